@@ -183,7 +183,12 @@ def check_packets(ctx, ex, it):
                     cfgs = [("vfield", c[0], "Ok", "0") for c in p.conds if c[0][0] == "load" and c[0][1] == CFG and c[1] == "Ok"]
                     cfg = cfgs[0] if cfgs else None
                     tsel = [c[1] for c in p.conds if c[0] == ("field", tm, "timeout")]
-                    want_t = ("vfield", ("field", tm, "timeout"), "Some", "0") if tsel == ["Some"] else ("field", cfg, "default_timeout")
+                    if tsel == ["Some"]:
+                        want_t = ("vfield", ("field", tm, "timeout"), "Some", "0")
+                    elif tsel == ["None"]:
+                        want_t = ("field", cfg, "default_timeout")
+                    else:   # not decided by a branch: the same choice spelled timeout.unwrap_or(default)
+                        want_t = ("unwrap_or", ("field", tm, "timeout"), ("field", cfg, "default_timeout"))
                     want_timeout = ("call", "cosmwasm_std::Timestamp::plus_seconds", (("field", ("field", ("param", "env"), "block"), "time"), want_t))
                     if f.get("channel_id") != chan:
                         prob = "packet sent on %s, not on the requested channel" % show(f.get("channel_id"))[:100]
